@@ -84,7 +84,7 @@ var ethMutations = []string{"none", "time_not_after_parent", "time_future", "gas
 func (ETHScenario) Generate(rng *rand.Rand, focus, tier string) kernel.Plan {
 	cfg := map[string]int64{
 		"keyseed":     rng.Int63(),
-		"special_seq": kernel.B2I(focus == "C19" || kernel.Chance(rng, 0.3)),
+		"special_seq": kernel.B2I(focus == "C19" || focus == "C01" && kernel.Chance(rng, 0.6) || kernel.Chance(rng, 0.3)),
 		"start":       []int64{1, 40, 46, 300, 12000000}[rng.Intn(5)],
 		"tp_min":      []int64{10, 600, 20160}[rng.Intn(3)],
 		"delay":       rng.Int63n(4),
